@@ -80,6 +80,10 @@ var props = map[string]propSpec{
 	"C14": storeProp("exploration", 45, 600, "one case = documents timestamped -72h..+3h relative to the simulated clock (around the 10-minute rule, the 24h clip and minute-bucket borders), clock jumps of hours between fractions, seal, restart with present/deleted/garbled/stale .frac-cache; battery of range queries whose ends fall on/around document timestamps and bucket borders, compared with the model that examines every document"+ntRule),
 	"C15": storeProp("fault_enumeration", 50, 900, "one case = 2-5 rounds of sequential bulks with small FracSize/TotalSize so that create->rotate->seal->retention->.frac-cache cycle, a planned crash at the k-th create/rename/remove/dirsync/any mutating op per round, power loss/kill/stop, optional .frac-cache tampering; after every restart: store comes up, every known fraction is wholly served or wholly gone, served ones are the newest, fractions with .del files in the image never serve again"+ntRule),
 	"C17": storeProp("exploration", 45, 600, "one case = history of bulks with re-deliveries (whole-bulk repeats, partial overlaps with new documents, documents of several earlier bulks, the same bulk by two clients concurrently), validation on the active fraction, after seal and after restart/replay; set-semantics model; totals/histograms/aggregations/DocsTotal strict while all copies sit in one fraction"+ntRule),
+	"C18": {Engine: "cachesim", Level: "exploration", Batch: 500, QuickSec: 30, ThorSec: 600,
+		Rule: "one case = 2-6 caller tasks issuing Get/GetWithError (loader parks at scheduling points, returns a size, fails or panics), Release and NewCache over 1-4+ caches sharing one Cleaner, plus one cleaner task running Rotate/Cleanup/CleanEmptyGenerations+ReleaseBuckets; seeded scheduler pre-empts at every lock/WaitGroup operation and at statement level inside cache.go/cleaner.go; invariants per call, accounting/bucket/limit invariants at quiescence, porcupine linearizability of the lookup history against a register-with-eviction model; non-trivial = the scheduler pre-empted a runnable task; distinct = distinct interleaving hash",
+		Assume: []string{"a cache is released only when no lookup on it is in flight (seq-db releases under the fraction's write lock, lookups hold its read lock)", "the cleaner methods are called from one task, as CacheMaintainer does"},
+		Real:   []string{"cache.Cache", "cache.Cleaner"}, Stub: []string{"loaders are harness code", "goroutine scheduling = verifsim seeded scheduler"}},
 	"C19": storeProp("fault_enumeration", 45, 600, "one case = 2-5 fractions (active+sealed), 1-3 asynchronous searches (query+histogram+aggregations), planned crash at the k-th rename of *.qpr / *.info, write to *.tmp or any mutating op, power loss/kill/stop, restart; the request must be known, finish within one simulated hour and equal the synchronous search and the model"+ntRule),
 }
 
